@@ -55,6 +55,18 @@ func PunctPool() *hist.Pool {
 	}
 }
 
+// SlashChildPool: a split node that is no route itself ("/a") whose child on the '/' edge is in turn a leaf with
+// the one-byte key "/", a longer key ("/b…") or a node with a single child, next to a sibling on another edge
+// ("/ab"): the add-slash recommendation at "/a" depends on what hangs on the '/' edge right now.
+func SlashChildPool() *hist.Pool {
+	return &hist.Pool{
+		Methods:    []string{"GET"},
+		Patterns:   []string{"/a/", "/a/b", "/a/bc", "/ab", "/a", "/a/{x}"},
+		BadMethod:  "get",
+		BadPattern: "/{x",
+	}
+}
+
 // MethodPool: few patterns under several custom methods (the method roots slice grows, shrinks and
 // shifts; Truncate with several methods).
 func MethodPool() *hist.Pool {
@@ -133,6 +145,8 @@ func PoolNamed(name string, quick bool) *hist.Pool {
 		return MethodPool()
 	case "punct":
 		return PunctPool()
+	case "slashchild":
+		return SlashChildPool()
 	case "nested":
 		return NestPool()
 	case "hosts":
@@ -462,6 +476,7 @@ func run(c *mc.Ctx, r *mc.Result) {
 	add(func(r *mc.Result) { runBFS(c, r, "hosts", HostPool(), sib-1, false) })
 	add(func(r *mc.Result) { runBFS(c, r, "infix2", Infix2Pool(), sib-1, false) })
 	add(func(r *mc.Result) { runFan(c, r) })
+	add(func(r *mc.Result) { runDeep(c, r) })
 	if c.Quick() {
 		add(func(r *mc.Result) { runBodies(c, r, "prefixes", PoolFor(true), 2, 2) })
 		add(func(r *mc.Result) { runBodies(c, r, "siblings", SiblingPool(), 3, 2) })
@@ -595,6 +610,70 @@ func runFan(c *mc.Ctx, r *mc.Result) {
 	}
 }
 
+// runDeep: trees with 6..12 nested branching levels (/z, /a/z, /a/a/z, …: every level has a sibling and children),
+// plain and below a parameter, under two methods: Truncate of one, two and all methods, an insertion whose wildcard
+// conflicts with everything below the parameter (the error must name each registered route once), and the usual
+// writes on the deepest, a middle and the shallowest route; after each, the complete observation (Len, iterators,
+// Has, Route) is compared with the map model.
+func runDeep(c *mc.Ctx, r *mc.Result) {
+	r.Bounds["deep"] = "6..12 nested branching levels under '/' and '/{p}/' x two methods x {Truncate(GET), Truncate(POST), Truncate(GET,POST), Truncate(), conflicting Handle, Handle/Update/Delete at the deepest, middle and shallowest level} x {direct, committed txn, aborted txn}, one more step from every successor"
+	for _, prefix := range []string{"", "/{p}"} {
+		for d := 6; d <= 12; d++ {
+			var pats []string
+			for i := 0; i < d; i++ {
+				pats = append(pats, prefix+strings.Repeat("/a", i)+"/z")
+			}
+			extra := []string{prefix + strings.Repeat("/a", d) + "/z", prefix + strings.Repeat("/a", d/2) + "/y", prefix + "/y"}
+			conflict := "/{q}/z"
+			pool := &hist.Pool{Methods: []string{"GET", "POST"}, Patterns: append(append(append([]string{}, pats...), extra...), conflict)}
+			var seedPath []hist.Op
+			for i, p := range pats {
+				seedPath = append(seedPath, hist.Op{Kind: hist.Handle, Method: "GET", Pattern: p})
+				if i%2 == 0 {
+					seedPath = append(seedPath, hist.Op{Kind: hist.Handle, Method: "POST", Pattern: p})
+				}
+			}
+			from := &hist.State{Path: seedPath, Model: hist.ModelOf(seedPath)}
+			var ops []hist.Op
+			for mode := 0; mode < 3; mode++ {
+				if mode > 0 {
+					for _, m := range []string{"GET", "POST", "GET,POST", ""} {
+						ops = append(ops, hist.Op{Kind: hist.Truncate, Method: m, Mode: mode})
+					}
+				}
+				ops = append(ops, hist.Op{Kind: hist.Handle, Method: "GET", Pattern: conflict, Mode: mode}, hist.Op{Kind: hist.HandleRoute, Method: "POST", Pattern: conflict, Mode: mode})
+				for _, p := range extra {
+					ops = append(ops, hist.Op{Kind: hist.Handle, Method: "GET", Pattern: p, Mode: mode})
+				}
+				for _, p := range []string{pats[0], pats[d/2], pats[d-1]} {
+					ops = append(ops, hist.Op{Kind: hist.Update, Method: "GET", Pattern: p, Mode: mode}, hist.Op{Kind: hist.Delete, Method: "GET", Pattern: p, Mode: mode}, hist.Op{Kind: hist.Delete, Method: "POST", Pattern: p, Mode: mode})
+				}
+			}
+			for _, op := range ops {
+				next, viols := Step(pool, from, op)
+				r.Evaluations++
+				r.Transitions++
+				r.TracesValidated++
+				for _, v := range viols {
+					r.Violate("bfs", v.Class, fmt.Sprintf("[%d nested levels under %q] ", d, prefix+"/")+v.Msg, Case{Pool: "deep", Path: v.Path})
+				}
+				if next != nil && len(viols) == 0 {
+					for _, op2 := range ops[len(ops)-13:] {
+						_, v2 := Step(pool, next, op2)
+						r.Evaluations++
+						r.Transitions++
+						for _, v := range v2 {
+							r.Violate("bfs", v.Class, fmt.Sprintf("[%d nested levels under %q] ", d, prefix+"/")+v.Msg, Case{Pool: "deep", Path: v.Path})
+						}
+					}
+				}
+			}
+			r.States++
+			r.DistinctNontrivial++
+		}
+	}
+}
+
 func runBFS(c *mc.Ctx, r *mc.Result, name string, p *hist.Pool, maxLive int, siblings bool) {
 	ops := p.Ops(true)
 	r.Bounds["bfs."+name] = fmt.Sprintf("methods %v, patterns %v, %d operations (5 kinds + Truncate; direct / committed txn / aborted txn; malformed pattern and method), states with <=%d registered routes expanded", p.Methods, p.Patterns, len(ops), maxLive)
@@ -657,12 +736,15 @@ func replay(c *mc.Ctx, raw json.RawMessage) string {
 	if cs.Pool == "infix2" {
 		p = Infix2Pool()
 	}
-	if cs.Pool == "fan" {
+	if cs.Pool == "fan" || cs.Pool == "deep" {
 		// the pool is every pattern that occurs in the history
 		seen := map[string]bool{}
 		p = &hist.Pool{Methods: []string{"GET"}}
+		if cs.Pool == "deep" {
+			p.Methods = []string{"GET", "POST"}
+		}
 		for _, o := range cs.Path {
-			if !seen[o.Pattern] {
+			if o.Pattern != "" && !seen[o.Pattern] {
 				seen[o.Pattern] = true
 				p.Patterns = append(p.Patterns, o.Pattern)
 			}
